@@ -236,7 +236,7 @@ def run_item(item):
                 for kind, detail in check(x, w):
                     st.violation(kind, f'[{w}] ' + detail, {'w': w, 'prefix': list(prefix)})
             try:
-                tx.explore(run_one, pb, on_exec=on_exec, fbound=1)
+                tx.explore(run_one, pb, on_exec=on_exec, fbound=1, stop=lambda: st.extra.get('violations_total', 0) >= 12)
             except tx.Divergence as e:
                 raise common.MachineryError(f'world {w}: {e}')
         st.sample({'victim': victim, 'contenders': contenders, 'order': order,
